@@ -2,6 +2,7 @@
   Reference symbol tables and the history-independence argument of property C04.
 -/
 import Tranp.Lemmas.Session
+import Tranp.Generated.LibClosure
 
 namespace Tranp.Session
 open Tranp
@@ -2525,5 +2526,72 @@ theorem desc_init_stable (rank : ModPath → Nat) (pool : List (ModPath × Desc)
   exact e ▸ hrank mn hmn
 
 end DescInstance
+
+/-! ## the shipped library closure (Generated/LibClosure.lean) -/
+
+section ReachN
+variable {Src Tree NV V Text : Type} (L : Lang Src Tree NV V Text) (E : Env Src)
+
+/-- one round of following the imports of files -/
+def reachStep (R : List ModPath) : List ModPath :=
+  R ++ R.flatMap (fun y => match (E.disk y).bind L.parse with | some t => L.imports t | none => [])
+
+def reachN : Nat → List ModPath
+  | 0 => E.libs
+  | n + 1 => reachStep L E (reachN n)
+
+theorem reachN_sound : ∀ n b, b ∈ reachN L E n → LibReach L E b := by
+  intro n
+  induction n with
+  | zero => intro b hb; exact LibReach.lib b hb
+  | succ n ih =>
+    intro b hb
+    simp only [reachN, reachStep, List.mem_append, List.mem_flatMap] at hb
+    rcases hb with hb | ⟨y, hy, hb⟩
+    · exact ih b hb
+    · cases hd : E.disk y with
+      | none => simp [hd] at hb
+      | some src =>
+        cases hp : L.parse src with
+        | none => simp [hd, hp] at hb
+        | some t =>
+          simp only [hd, hp, Option.bind_some] at hb
+          exact LibReach.imp y b src t (ih y hy) hd hp hb
+
+end ReachN
+
+section LibClosure
+open Tranp.Generated
+
+/-- a library stub as the descriptor language sees it: bare import edges (nothing is looked up through them), one class with a
+    method, one variable -/
+def libStub (imps : List ModPath) : Desc :=
+  { imports := imps.map (fun m => (m, [])), classes := [{ name := ['T'], methods := [{ name := ['g'] }] }], vars := [(['v'], true)] }
+
+def libPool : List (ModPath × Desc) := LibClosure.modules.map (fun mi => (mi.1, libStub mi.2))
+def libNames : List ModPath := LibClosure.modules.map (fun mi => mi.1)
+def libMain : ModPath := ['_', '_', 'm', 'a', 'i', 'n', '_', '_']
+def libEnv : Env Desc := poolEnv libPool LibClosure.libs libMain
+def libInit : State Desc Desc Desc Str Str := { mainSrc := {} }
+def libFuel : Nat := 40
+
+/-- the tables of the closure after a plain load in a fresh process -/
+def libCanon : State Desc Desc Desc Str Str := (loadAll descLang libEnv libFuel libNames libInit).2
+
+def libOps : List (Op Desc) := libNames.flatMap (fun b => [.load b, .transpile b, .unload b])
+
+/-- every history of at most three operations on modules of the closure -/
+def libHistories : List (List (Op Desc)) :=
+  [[]] ++ libOps.map (fun a => [a]) ++ libOps.flatMap (fun a => libOps.map (fun b => [a, b]))
+    ++ libOps.flatMap (fun a => libOps.flatMap (fun b => libOps.map (fun c => [a, b, c])))
+
+/-- after the history, loading the whole closure succeeds, registers nothing else, completes every module, and every module has
+    the table it has after a plain load in a fresh process -/
+def libLoadOk (h : List (Op Desc)) : Bool :=
+  let r := loadAll descLang libEnv libFuel libNames (run descLang libEnv libFuel libInit h)
+  decide (r.1 = .ok ()) && r.2.mods.all (fun x => decide (x ∈ libNames)) && libNames.all (fun b => decide (b ∈ r.2.completed))
+    && libNames.all (fun b => decide (tableOf r.2.db b = tableOf libCanon.db b))
+
+end LibClosure
 
 end Tranp.Session
